@@ -50,6 +50,20 @@ fn main() {
             let src = args.get(2).unwrap_or_else(|| usage());
             let argtxt = args.get(3).cloned().unwrap_or_else(|| "()".to_string());
             let opt = args.iter().any(|a| a == "--opt");
+            if args.iter().any(|a| a == "--symbols") {
+                match sut::compile_lib_sym(src, opt, &[], "*verif*.clsp") {
+                    Ok((_, syms)) => {
+                        let mut ks: Vec<_> = syms.iter().filter(|(k, _)| !k.contains("_$_")).collect();
+                        ks.sort();
+                        for (k, v) in ks {
+                            if v.len() < 80 && (k.len() != 64 || syms.contains_key(&format!("{k}_arguments"))) {
+                                println!("SYM {k} = {v}");
+                            }
+                        }
+                    }
+                    Err(e) => println!("SYM ERROR {e}"),
+                }
+            }
             // --ambient 0|1 : hold the per-thread integer-conversion mode at that value around the compile
             let _ambient = arg_after(&args, "--ambient").map(|v| chialisp::compiler::clvm::NewStyleIntConversion::new(v == "1"));
             // --modern SIGIL OPT FE POST : compile_file with an explicit option set
